@@ -35,6 +35,8 @@ type Obj struct {
 	R     *libregex.Schema
 	AddRes string
 	Types map[string]jschema.Schema // the type objects added to a schema object
+	// KeptDocs: one Document object per document of the spec, reused by every "ValidateKept" operation
+	KeptDocs map[int]jschema.Document
 }
 
 func Build(sp *Spec) *Obj { return BuildSharing(sp, nil) }
@@ -66,8 +68,7 @@ func BuildSharing(sp *Spec, from *Obj) *Obj {
 	return o
 }
 
-// canonRes: verdict, code and position – not the message (required-key messages list keys in
-// map order by design).
+// canonRes: verdict, code, position and message.
 func canonRes(r lib.Res) string {
 	if r.Panic != "" {
 		return "PANIC:" + r.Panic
@@ -76,7 +77,7 @@ func canonRes(r lib.Res) string {
 		return "ok"
 	}
 	if r.Lib {
-		return fmt.Sprintf("err(code=%d,pos=%d,haspos=%v,file=%s)", r.Code, r.Pos, r.HasPos, r.File)
+		return fmt.Sprintf("err(code=%d,pos=%d,haspos=%v,file=%s,msg=%s)", r.Code, r.Pos, r.HasPos, r.File, r.Msg)
 	}
 	return fmt.Sprintf("err(non-library,%s,code=%d)", r.Type, r.Code)
 }
@@ -106,6 +107,18 @@ func Stream(o *Obj, first string) (out string) {
 		out += fmt.Sprintf("%s[%d,%d] ", l.Type().String(), l.Begin(), l.End())
 	}
 	return out + "..."
+}
+
+// OpsSequential: Ops plus the operations that reuse one Document object (documents are not meant
+// for concurrent use, so the concurrency check does not take these).
+func OpsSequential(sp *Spec) []string {
+	ops := Ops(sp)
+	if sp.Kind == "schema" {
+		for i := range sp.Docs {
+			ops = append(ops, fmt.Sprintf("ValidateKept:%d", i))
+		}
+	}
+	return ops
 }
 
 // Ops available per kind.
@@ -174,6 +187,19 @@ func Do(o *Obj, op string) (res string, kept []Retained) {
 				kept = append(kept, Retained{What: "UsedUserTypes slice", Live: func() string { return fmt.Sprint(uu) }, Snapshot: fmt.Sprint(u)})
 			}
 			return fmt.Sprintf("%v|%s", u, canonRes(r)), kept
+		case len(op) > 13 && op[:13] == "ValidateKept:":
+			// the same Document object every time (it has been validated, by this and maybe by
+			// other schema objects, before): the verdict is that of a fresh document
+			var i int
+			fmt.Sscanf(op, "ValidateKept:%d", &i)
+			if o.KeptDocs == nil {
+				o.KeptDocs = map[int]jschema.Document{}
+			}
+			if o.KeptDocs[i] == nil {
+				o.KeptDocs[i] = libjson.New("doc", o.Spec.Docs[i])
+			}
+			d := o.KeptDocs[i]
+			return canonRes(lib.Safe(func() error { return s.Validate(d) })), nil
 		default:
 			var i int
 			fmt.Sscanf(op, "Validate:%d", &i)
@@ -256,10 +282,13 @@ func Do(o *Obj, op string) (res string, kept []Retained) {
 			r := lib.Safe(func() error { var err error; p, err = g.Pattern(); return err })
 			return p + "|" + canonRes(r), nil
 		case "Example":
-			// the example generator is seeded per object; a fresh object gives the reference
+			// every call returns what the first call on a fresh object returns
 			var b []byte
 			r := lib.Safe(func() error { var err error; b, err = g.Example(); return err })
-			return fmt.Sprintf("len>=0:%v|%s", b != nil, canonRes(r)), nil
+			if b != nil {
+				keepBytes("regex Example bytes", b)
+			}
+			return fmt.Sprintf("%q|%s", b, canonRes(r)), kept
 		default:
 			var n jschema.ASTNode
 			r := lib.Safe(func() error { var err error; n, err = g.GetAST(); return err })
